@@ -90,9 +90,11 @@ func parseSolvers(s string) []SolverKind {
 	return out
 }
 
-func setup(tier string) (*Engine, error) {
+func setup(tier string) (*Engine, error) { return setupFor(tier, "") }
+
+func setupFor(tier, prop string) (*Engine, error) {
 	repo := env("VERIF_REPO", "/repo")
-	e, err := loadEngine(repo, filepath.Join(verifDir, "harness"))
+	e, err := loadEngine(repo, filepath.Join(verifDir, "harness"), prop)
 	if err != nil {
 		return nil, err
 	}
@@ -248,7 +250,7 @@ func cmdCheck(args []string) int {
 		*tier = t
 	}
 	t0 := time.Now()
-	e, err := setup(*tier)
+	e, err := setupFor(*tier, *prop)
 	if err != nil {
 		fmt.Println("BROKEN: harness does not load against the current tree (exit 2, not a verdict):")
 		fmt.Println(err)
@@ -257,6 +259,14 @@ func cmdCheck(args []string) int {
 	tc := tierCfg{budget: 6 * time.Minute, qt: 20 * time.Second, solvers: []SolverKind{Z3, CVC5, CVC5Int, Z3New}, cross: 0}
 	if *tier == "thorough" {
 		tc = tierCfg{budget: 20 * time.Minute, qt: 60 * time.Second, solvers: []SolverKind{Z3, CVC5, CVC5Int, Z3New}, cross: 7}
+	}
+	if len(droppedHarnessFiles) > 0 {
+		var d []string
+		for f := range droppedHarnessFiles {
+			d = append(d, f)
+		}
+		sort.Strings(d)
+		fmt.Printf("note: harness files of other properties left out because they do not compile against this tree: %s\n", strings.Join(d, " "))
 	}
 	hs := e.harnesses(*prop, e.tier)
 	if *only != "" {
@@ -496,7 +506,7 @@ func nativeTest(repoDir, testName string, extraEnv []string) (string, error) {
 	ov := map[string]string{}
 	ents, _ := os.ReadDir(hdir)
 	for _, en := range ents {
-		if strings.HasSuffix(en.Name(), ".go") {
+		if strings.HasSuffix(en.Name(), ".go") && !droppedHarnessFiles[en.Name()] {
 			ov[filepath.Join(repoDir, "zz_verif_"+en.Name())] = filepath.Join(hdir, en.Name())
 		}
 	}
@@ -515,7 +525,7 @@ func nativeTest(repoDir, testName string, extraEnv []string) (string, error) {
 	var names []string
 	ents, _ = os.ReadDir(hdir)
 	for _, en := range ents {
-		if !strings.HasSuffix(en.Name(), ".go") {
+		if !strings.HasSuffix(en.Name(), ".go") || droppedHarnessFiles[en.Name()] {
 			continue
 		}
 		src, _ := os.ReadFile(filepath.Join(hdir, en.Name()))
@@ -724,6 +734,9 @@ func writeEvidence(e *Engine, prop, tier string, sums []*Summary, nViol int, inc
 		}
 		for a := range s.Assumptions {
 			assumptions[a] = true
+		}
+		for f := range droppedHarnessFiles {
+			assumptions["harness file "+f+" (other properties) left out: it does not compile against the tree under test"] = true
 		}
 		covs := []string{}
 		for id, cs := range s.Covers {
